@@ -1,10 +1,11 @@
 #!/usr/bin/env python3
 """Fills what_it_changes / needs_to_manifest of round-2 seeded changes from the author's notes
-(seeded/<id>/author_notes.md, section of the mutant).  usage: seednotes.py C03 [--src notes.md]"""
+(seeded/<id>/author_notes.md, section of the mutant).  usage: seednotes.py C03 [--round3]"""
 import json, os, re, sys
 HERE = os.path.dirname(os.path.abspath(__file__))
 pid = sys.argv[1]
-src = sys.argv[3] if len(sys.argv) > 3 and sys.argv[2] == "--src" else "/tmp/mut/%s/notes.md" % pid
+rnd = 3 if "--round3" in sys.argv else 2
+src = "/tmp/mut/%s/notes.md" % pid
 text = open(src).read()
 secs = re.split(r"(?m)^#{2,3} +(?:Mutant|mutant)\s+([ABC])\b", text)
 # secs = [pre, 'A', bodyA, 'B', bodyB, ...]
@@ -24,7 +25,7 @@ for i in range(1, len(secs) - 1, 2):
             break
     # stop at the next section heading
     need = need.split("\n## ")[0]
-    new = {"A": "D", "B": "E", "C": "F"}[letter]
+    new = ({"A": "D", "B": "E", "C": "F"} if rnd == 2 else {"A": "G", "B": "H", "C": "I"})[letter]
     mp = os.path.join(HERE, "seeded", pid + new, "meta.json")
     if not os.path.exists(mp):
         continue
